@@ -609,7 +609,7 @@ func (m *Msg) SetAddrHeaderIgnoreInvalid(header AddrHeader, values ...string) {
 	}
 	var addresses []*mail.Address
 	for _, addrVal := range values {
-		address, err := mail.ParseAddress(m.encodeString(addrVal))
+		address, err := mail.ParseAddress(addrVal)
 		if err != nil {
 			continue
 		}
